@@ -364,7 +364,7 @@ fn short_history(rng: &mut Rng, ctx: &mut Ctx) -> Result<(), (Bad, Vec<String>)>
                     out
                 };
                 let dflt: Option<&str> = if rng.chance(2, 3) { Some(uris[rng.below(uris.len())]) } else { None };
-                let pfx = ["p", "q", "a"][rng.below(3)];
+                let pfx = ["p", "q", "a", "XML", "Xml"][rng.below(5)];
                 let puri = uris[rng.below(uris.len())];
                 // (qname, expected expanded name) of elements in document order, with their attributes
                 let mut expect: Vec<((String, String), Vec<(String, String)>)> = Vec::new();
